@@ -271,6 +271,8 @@ def run(res, tier):
     for n, (lang, text) in c08.SHAPES.items():
         fams["shape-" + n] = (lang, text, c08.EXTRA_FLAGS.get(n, []))
     for n, fam in gen_orders.FAMILIES.items():
+        if "--no-recursive-allowlist" in fam["flags"]:
+            continue      # there the user asks for used types NOT to be defined: unresolved names are the point
         order = [("def", d) for d in __import__("checks.c11", fromlist=["topo"]).topo(fam)]
         fams["graph-" + n] = (fam["lang"], gen_orders.render(fam, order), fam["flags"])
     jobs, meta = [], {}
